@@ -374,6 +374,12 @@ SyncKilledStep ==
            newpar == ParMerge(par, Ev.state)
            c06 == \A i \in loadable : ParityValid(LoggedC(alts[i]), newpar) /\ MapSane(LoggedC(alts[i]))
            addonly == \A d \in D : Gone(L0, fs, d) = {}
+           \* stripes in which some block belongs to a file that is still there unchanged must keep valid parity whatever is pending
+           keptstripes(c) == {p \in 0..(AllocatedMax(c) - 1) : \E d \in D : LET b == BlockAtSlow(c, d, p)
+                                                                          IN HasFile(b) /\ b.n \in DOMAIN fs[d] /\ SameStamp(fs[d][b.n], c.cf[d][b.n])}
+           c06kept == \A i \in loadable : LET ci == LoggedC(alts[i])
+                                          IN \A p \in keptstripes(ci) : AllSynced(ci, p) =>
+                                                \A lv \in Levels : p + 1 <= Len(newpar[lv]) /\ newpar[lv][p + 1].k = "V" /\ newpar[lv][p + 1].w = StripeVec(ci, p)
        IN /\ Follow(Ev.state, par)
           /\ diag' = IF okC THEN <<>> ELSE <<"SyncKilled", l, DiffC(presave, newc)>>
           /\ clean' = FALSE
@@ -387,7 +393,7 @@ SyncKilledStep ==
                       \* "when the interrupted sync had only additions pending, every file synced before stays recoverable": with
                       \* deletions pending the parity files may already be cut to the new size while the content on disk still is
                       \* the old one (sync.c resizes the parity before the first save); the next sync then refuses or completes
-                      (IF ~dmg /\ ~c06 /\ addonly THEN <<<<"C07", IF "autosave_at" \in DOMAIN a /\ newc = autosaved /\ newc # r.C
+                      (IF ~dmg /\ ((~c06 /\ addonly) \/ ~c06kept) THEN <<<<"C07", IF "autosave_at" \in DOMAIN a /\ newc = autosaved /\ newc # r.C
                                                      THEN "F5-autosave-before-parity-writers-drained"
                                                      ELSE "synced-stripes-without-valid-parity-after-kill", a.rules>>>> ELSE <<>>)
           /\ afterfix' = FALSE
@@ -433,7 +439,9 @@ CheckStep ==
                       (IF ~ParityInvalid(C) /\ NoDifference(C, fs) /\ (\A lv \in PresentOf(a) : Len(par[lv]) >= AllocatedMax(C))
                           /\ a.range.bstart = 0 /\ a.range.bcount = 0 /\ ~LinkErrorsF(lks, fs) /\ "flt" \notin DOMAIN a
                        THEN C04_Check(C, fs, par, a, Ev.out) ELSE <<>>) \o
-                      (IF afterfix /\ Ev.out.rc # 0 THEN <<<<"C01", "check-after-fix-finds-errors", Ev.out>>>> ELSE <<>>)
+                      (IF afterfix /\ Ev.out.rc # 0 THEN <<<<"C01", "check-after-fix-finds-errors", Ev.out>>>> ELSE <<>>) \o
+                      \* C07: an interrupted sync that was run again to its end leaves an array on which check finds nothing
+                      (IF "expect_clean" \in DOMAIN a /\ Ev.out.rc # 0 THEN <<<<"C07", "check-after-resumed-sync-finds-errors", Ev.out>>>> ELSE <<>>)
           \* a full check without any error ends a damage episode
           /\ dmg' = (dmg /\ ~(~a.audit /\ Ev.out.rc = 0 /\ PresentOf(a) = Levels /\ a.range.bstart = 0 /\ a.range.bcount = 0
                               /\ "flt" \notin DOMAIN a))
